@@ -506,17 +506,16 @@ func TestC03_QiSpend(t *testing.T) {
 			d["note"] = extra
 			return d
 		}
-		// The valid spend has to pass both entry points; otherwise mutants prove nothing.
+		// The valid spend has to pass both entry points for the refusals below to mean anything. The
+		// property is one-directional ("authorised only by ..."): a refused valid spend is not a
+		// violation by itself, but a node that refuses the protocol's authorisation usually accepts
+		// another one - the mutants are still offered, and an accepted mutant is the violation. Only
+		// when none is accepted does the case end without a verdict.
+		baseRefused := ""
 		if err := s.env.process(s.tx, s.chainID, first); err != nil {
-			// a spend authorised exactly as the protocol prescribes (Schnorr signature of the owner, the
-			// MuSig2 aggregate of one key per input for several inputs) that the node refuses means the
-			// node demands some other authorisation
-			stats.Violation(t, part, "C03/qi/valid-refused/process/"+multi, fmt.Sprintf("valid %s/%s spend refused by ProcessQiTx: %v", s.kind, multi, err), dump(nil, ""))
-			return
-		}
-		if err := s.env.poolValidate(s.tx, s.chainID); err != nil {
-			stats.Violation(t, part, "C03/qi/valid-refused/pool/"+multi, fmt.Sprintf("valid %s/%s spend refused by pool validation: %v", s.kind, multi, err), dump(nil, ""))
-			return
+			baseRefused = fmt.Sprintf("valid %s/%s spend refused by ProcessQiTx: %v", s.kind, multi, err)
+		} else if err := s.env.poolValidate(s.tx, s.chainID); err != nil {
+			baseRefused = fmt.Sprintf("valid %s/%s spend refused by pool validation: %v", s.kind, multi, err)
 		}
 		baseHash := s.tx.Hash()
 		baseCanon := canonQi(s.tx)
@@ -547,7 +546,7 @@ func TestC03_QiSpend(t *testing.T) {
 			}
 			// sigOnly claim: the same mutant signed by the rightful owners is accepted, so
 			// the stale signature is what gets the mutant refused.
-			if m.sigOnly && confirm[i] {
+			if m.sigOnly && confirm[i] && baseRefused == "" {
 				unsigned := mkQiTx(m.tx.ChainId(), m.tx.TxIn(), m.tx.TxOut(), m.tx.Data(), nil)
 				sg, err := signQi(m.resignKeys, qiDigest(unsigned, m.nodeChain, loc), s.nonceSeed)
 				if err != nil {
@@ -573,6 +572,9 @@ func TestC03_QiSpend(t *testing.T) {
 				stats.Violation(t, part, "C03/qi/hash-collision/"+name,
 					fmt.Sprintf("the %s mutant has the same transaction hash %x as the valid spend (pool sender cache key)", name, baseHash), dump(m, "hash collision"))
 			}
+		}
+		if baseRefused != "" {
+			t.Fatalf("HARNESS: %s (no mutant was accepted either)  %v", baseRefused, dump(nil, ""))
 		}
 	})
 }
@@ -607,8 +609,7 @@ func TestC03_QiPubkeyEncoding(t *testing.T) {
 			multi = "musig"
 		}
 		if err := s.env.process(s.tx, s.chainID, first); err != nil {
-			stats.Violation(t, part, "C03/qi/valid-refused/process/"+multi, fmt.Sprintf("valid spend refused by ProcessQiTx: %v", err), s.describe())
-			return
+			t.Fatalf("HARNESS: valid spend refused by ProcessQiTx: %v %v", err, s.describe())
 		}
 		// hybrid-encode a non-empty subset of the inputs' keys
 		hyIns := txInsOf(s.ins)
